@@ -11,6 +11,8 @@ mod mon_text;
 mod mon_twin;
 mod ops;
 mod props_hist;
+mod props_io;
+mod props_pure;
 mod rec;
 mod rng;
 mod scriptgen;
@@ -48,6 +50,10 @@ fn main() {
                 "C01" | "C02" | "C03" | "C04" | "C05" | "C06" | "C08" | "C10" | "C13" | "C18" | "C20" => {
                     props_hist::run_shard(&cfg, &mut out)
                 }
+                "C09" => props_io::run_c09(&cfg, &mut out),
+                "C15" => props_pure::run_c15(&cfg, &mut out),
+                "C16" => props_pure::run_c16(&cfg, &mut out),
+                "C17" => props_pure::run_c17(&cfg, &mut out),
                 p => {
                     eprintln!("unknown property {p}");
                     std::process::exit(3);
@@ -73,6 +79,8 @@ fn main() {
                 "C01" | "C02" | "C03" | "C04" | "C05" | "C06" | "C08" | "C10" | "C13" | "C18" | "C20" => {
                     props_hist::replay(&rp, &work)
                 }
+                "C09" => props_io::replay(&rp),
+                "C15" | "C16" | "C17" => props_pure::replay(&rp),
                 p => {
                     eprintln!("no replay for {p}");
                     std::process::exit(3);
